@@ -16,6 +16,11 @@
 #include "common/verif.h"
 #include "ref/ref_format.h"
 
+// Keeps long rapidcheck runs flat in memory: without this ASan's stack depot grows by ~6 KB per case (rapidcheck's deep,
+// varying call stacks make nearly every allocation trace unique) and a 600 k-case process reaches several GB.
+// ASAN_OPTIONS from the environment still takes precedence for the keys it sets.
+extern "C" const char *__asan_default_options() { return "malloc_context_size=4:quarantine_size_mb=32"; }
+
 namespace fg {
 
 enum Ty {
